@@ -179,6 +179,16 @@ class Scrollable(WidgetDecoration[WrappedWidget]):
         size: tuple[int, int],  # type: ignore[override]
         focus: bool = False,
     ) -> CompositeCanvas:
+        trim_top_before = self._trim_top
+        try:
+            return self._render(size, focus)
+        finally:
+            if self._trim_top != trim_top_before:
+                # the position was changed while rendering (clamped to this size, reset because the content
+                # fits, moved to the cursor): canvases cached for other sizes still show the old position
+                self._invalidate()
+
+    def _render(self, size: tuple[int, int], focus: bool = False) -> CompositeCanvas:
         from urwid import canvas
 
         maxcol, maxrow = size
